@@ -79,6 +79,22 @@ def scenarios(ck):
         pol = stalled_task_policy(rng, spec, nw) if r < 0.6 else (stalled_dep_policy(rng, nw) if r < 0.8 else X.gen_policy(rng, nw))
         yield {'program': spec, 'backend': X.pick_backend(rng, (5, 2, 1, 2)), 'prefill': [], 'keep_going': rng.random() < 0.3, 'keep_failed': False,
                'phases': [{'workers': [{'nr_wait': rng.choice([1, 2, 3, 6]), 'unload': rng.random() < 0.4} for _ in range(nw)], 'policy': pol}]}
+    # wide programs: 130+ tasks waiting on one slow dependency, independent tasks queued behind them (crosses the scheduler's bounded
+    # look-ahead of 128 blocked tasks); the executor of the dependency is parked inside it
+    for i in range(ck.n(1, 8)):
+        nd = rng.choice([130, 140, 170])
+        spec = X.wide_program(nd, rng.randint(2, 3), fail=False, before=rng.choice([0, 1]))
+        yield {'program': spec, 'backend': X.pick_backend(rng, (6, 1, 0, 2)), 'prefill': [], 'keep_going': False, 'keep_failed': False, 'wide': True,
+               'phases': [{'workers': [{'nr_wait': 2}, {'nr_wait': rng.choice([1, 2])}],
+                           'policy': {'seed': rng.randrange(1 << 30), 'base': 'rr', 'flavour': 'stalled-task', 'stall_task': [['ret', 1, rng.choice([700, 1200])]]}}]}
+    for i in range(ck.n(25, 400)):
+        # the same single-path shape with operations that fail at resolution (tuple / list indices holding a task, bad indices): the failing
+        # look-up still has to wait for everything it names
+        nt = rng.randint(3, 6)
+        spec = X.gen_program(rng, nt, clean=False, rich=1.0, single_path=0.8, chainy=0.2)
+        nw = rng.randint(2, 3)
+        yield {'program': spec, 'backend': X.pick_backend(rng, (6, 2, 1, 2)), 'prefill': [], 'keep_going': rng.random() < 0.7, 'keep_failed': rng.random() < 0.3,
+               'phases': [{'workers': [{'nr_wait': rng.choice([2, 3, 6])} for _ in range(nw)], 'policy': stalled_task_policy(rng, spec, nw)}]}
     for i in range(ck.n(90, 1500)):
         # single-path programs: most tasks take exactly one task-carrying argument (a tasklet chain, a container, a mapped slice ...), so
         # every dependency edge enters through one syntactic path only; the executor of one of the dependencies is parked inside it
@@ -109,6 +125,8 @@ def scenarios(ck):
 def shape_of(a, acc):
     k = a[0]
     acc.add(k)
+    if k == 'getitem' and a[2][0] in ('tuple', 'list'):
+        acc.add('index-is-a-container-holding-tasks')
     if k in ('list', 'tuple'):
         for x in a[1]:
             shape_of(x, acc)
@@ -161,6 +179,8 @@ def run(ck):
             for k in acc:
                 ck.count('arg:' + k)
             ck.count('policy:' + sc['phases'][0]['policy'].get('flavour', '?').split(':')[0])
+            if sc.get('wide'):
+                ck.count('wide programs (130+ tasks waiting on one parked dependency)')
             ck.count('starts-with-deps', sum(1 for e in res.trace if e[0] == 'EStart' and X.task_deps_spec(sc['program']['tasks'][e[2] - 1])))
             # how often a dependent was examined while its dependency was locked / unfinished
             held = {}
